@@ -1,5 +1,5 @@
 /* Verification unit: hdiff driver glue -- mfhdf/hdiff/hdiff_sds.c (diff_sds), hdiff_gr.c (diff_gr), hdiff.c (match),
- * hdiff_mattbl.c (C19: "hdiff reports no difference exactly when two files hold equal comparable content ... flags
+ * (C19: "hdiff reports no difference exactly when two files hold equal comparable content ... flags
  * any change to a single data value ... or added/removed object within the classes it compares")
  *
  * array_diff (hdiff_array.c, under contract in hdiff_array_u.c / hdiff_float_u.c) is a stub here: an exact reference
@@ -220,7 +220,42 @@ strcpy(char *d, const char *s)
 #include "hdiff_sds.c"
 #include "hdiff_gr.c"
 #include "hdiff.c"
-#include "hdiff_mattbl.c"
+/* hdiff_mattbl.c is NOT part of this unit: the 20-entry table of 280-byte records written at a symbolic index did not
+   fit cbmc (8 min, out of memory).  Stub bodies: the same table with capacity DR_TBL and no growth. */
+#define DR_TBL 4
+void
+match_table_init(match_table_t **tbl)
+{
+    match_table_t *table = (match_table_t *)malloc(sizeof(match_table_t));
+    H4V_ASSUME(table != NULL);
+    table->size  = DR_TBL;
+    table->nobjs = 0;
+    table->objs  = (match_info_t *)malloc(DR_TBL * sizeof(match_info_t));
+    H4V_ASSUME(table->objs != NULL);
+    *tbl = table;
+}
+void
+match_table_add(match_table_t *table, int *flags, char *path, int32 tag1, int32 ref1, int32 tag2, int32 ref2)
+{
+    uint32 i = table->nobjs;
+    H4V_CHECK(i < DR_TBL, "match table model: capacity");
+    if (i >= DR_TBL)
+        return;
+    table->nobjs++;
+    table->objs[i].tag1 = tag1;
+    table->objs[i].ref1 = ref1;
+    table->objs[i].tag2 = tag2;
+    table->objs[i].ref2 = ref2;
+    strcpy(table->objs[i].obj_name, path);
+    table->objs[i].flags[0] = flags[0];
+    table->objs[i].flags[1] = flags[1];
+}
+void
+match_table_free(match_table_t *table)
+{
+    free(table->objs);
+    free(table);
+}
 #undef printf
 
 uint32
